@@ -10,23 +10,23 @@ package part
 //@ spec sizeOf(flags mathint) mathint = flags % 512
 
 //@ func (*header).kind
-//@   property C01 C02 C06 C11 C12 C17
+//@   property C01 C02 C06 C09 C11 C12 C17
 //@   pure
 //@   requires n != nil
 //@   ensures result == kindOf(n.flags)
 //@ func (*header).size
-//@   property C01 C02 C06 C11 C12 C17
+//@   property C01 C02 C06 C09 C11 C12 C17
 //@   pure
 //@   requires n != nil
 //@   ensures result == sizeOf(n.flags)
 //@ func (*header).setKind
-//@   property C01 C02 C06 C11 C12 C17
+//@   property C01 C02 C06 C09 C11 C12 C17
 //@   requires n != nil
 //@   modifies H_part_header_flags
 //@   ensures kindOf(n.flags) == k % 16 && sizeOf(n.flags) == old(sizeOf(n.flags))
 //@   ensures unchangedExcept(H_part_header_flags, n)
 //@ func (*header).setSize
-//@   property C01 C02 C06 C11 C12 C17
+//@   property C01 C02 C06 C09 C11 C12 C17
 //@   requires n != nil && 0 <= size
 //@   modifies H_part_header_flags
 //@   ensures sizeOf(n.flags) == size % 512 && kindOf(n.flags) == old(kindOf(n.flags))
@@ -34,7 +34,7 @@ package part
 
 // commonPrefix: the longest common prefix of a and b, as a prefix slice of a.
 //@ func commonPrefix
-//@   property C01 C02 C06 C11 C12 C17
+//@   property C01 C02 C06 C09 C11 C12 C17
 //@   pure
 //@   ensures arr(result) == arr(a) && off(result) == off(a) && len(result) <= len(a) && len(result) <= len(b)
 //@   ensures forall k int :: 0 <= k && k < len(result) ==> a[k] == b[k]
@@ -176,39 +176,39 @@ package part
 
 //@ spec leafOf(n *header) *leaf = kindOf(n.flags) == 1 ? as(leaf, n) : (kindOf(n.flags) == 2 ? as(node4, n).leaf : (kindOf(n.flags) == 3 ? as(node16, n).leaf : (kindOf(n.flags) == 4 ? as(node48, n).leaf : as(node256, n).leaf)))
 //@ func (*header).getLeaf
-//@   property C01 C02 C06 C11 C12 C17
+//@   property C01 C02 C06 C09 C11 C12 C17
 //@   maypanic
 //@   pure
 //@   requires n != nil && 1 <= kindOf(n.flags) && kindOf(n.flags) <= 5
 //@   ensures result == leafOf(n)
 //@   ensures kindOf(n.flags) == 1 ==> result != nil && addr(result.header) == n
 //@ func (*header).setLeaf
-//@   property C01 C02 C06 C11 C12 C17
+//@   property C01 C02 C06 C09 C11 C12 C17
 //@   maypanic
 //@   requires n != nil && 2 <= kindOf(n.flags) && kindOf(n.flags) <= 5
 //@   modifies H_part_node4_leaf H_part_node16_leaf H_part_node48_leaf H_part_node256_leaf
 //@   ensures leafOf(n) == l
 //@ func (*header).isLeaf
-//@   property C01 C02 C06 C11 C12 C17
+//@   property C01 C02 C06 C09 C11 C12 C17
 //@   pure
 //@   requires n != nil
 //@   ensures result <==> kindOf(n.flags) == 1
 
 //@ func (*header).txnID
-//@   property C01 C02 C06 C11 C12 C17
+//@   property C01 C02 C06 C09 C11 C12 C17
 //@   maypanic
 //@   pure
 //@   requires n != nil && 1 <= kindOf(n.flags) && kindOf(n.flags) <= 5
 //@   ensures result == txnIDOf(n)
 //@ func (*header).setTxnID
-//@   property C01 C02 C06 C11 C12 C17
+//@   property C01 C02 C06 C09 C11 C12 C17
 //@   maypanic
 //@   requires n != nil && 1 <= kindOf(n.flags) && kindOf(n.flags) <= 5
 //@   modifies H_part_node4_txnID H_part_node16_txnID H_part_node48_txnID H_part_node256_txnID
 //@   ensures kindOf(n.flags) != 1 ==> txnIDOf(n) == txnID
 //@   ensures @frame unchangedExcept(H_part_node4_txnID, as(node4, n)) && unchangedExcept(H_part_node16_txnID, as(node16, n)) && unchangedExcept(H_part_node48_txnID, as(node48, n)) && unchangedExcept(H_part_node256_txnID, as(node256, n))
 //@ func (*header).clone
-//@   property C01 C02 C06 C11 C12 C17
+//@   property C01 C02 C06 C09 C11 C12 C17
 //@   maypanic
 //@   requires n != nil && 1 <= kindOf(n.flags) && kindOf(n.flags) <= 5
 //@   ensures @nonnil result != nil
@@ -220,23 +220,23 @@ package part
 //@   inline
 //@ spec rootOnly(o mathint) bool = (o / 2) % 2 == 1
 //@ func options.rootOnlyWatch
-//@   property C01 C02 C06 C11 C12 C17
+//@   property C01 C02 C06 C09 C11 C12 C17
 //@   pure
 //@   ensures result <==> rootOnly(o)
 
 //@ func (*Tree).Txn
-//@   property C01 C02 C06 C11 C12 C17
+//@   property C01 C02 C06 C09 C11 C12 C17
 //@   flag nosafety
 //@   requires t != nil && t.prevTxn != nil
 //@   ensures @starts-at-reserved-id result != nil && result.txnID == t.nextTxnID && result.root == t.root && result.oldRoot == t.root && result.size == t.size && result.rootWatch == t.rootWatch && result.prevTxn == t.prevTxn && !result.dirty
 //@   ensures @starts-with-no-recorded-watches result.watches != nil ==> (forall c ptr :: !has(result.watches, c))
 
 //@ func (*Txn).Clone
-//@   property C01 C02 C06 C11 C12 C17
+//@   property C01 C02 C06 C09 C11 C12 C17
 //@   requires txn != nil
 //@   ensures @bump-before-escape txn.txnID == old(txn.txnID) + 1 && result.nextTxnID == txn.txnID && result.root == txn.root && result.size == txn.size
 //@ func (*Txn).Commit
-//@   property C01 C02 C06 C11 C12 C17
+//@   property C01 C02 C06 C09 C11 C12 C17
 //@   flag nosafety
 //@   requires txn != nil && txn.prevTxn != nil
 //@   ensures @bump-before-escape txn.txnID == old(txn.txnID) + 1 && result.nextTxnID == txn.txnID && result.root == txn.root && result.size == txn.size
@@ -258,25 +258,25 @@ package part
 //@   pure
 // All runs the consumer while the traversal is in progress: the tree it walks is frozen first.
 //@ func (*Txn).All
-//@   property C01 C02 C06 C11 C12 C17
+//@   property C01 C02 C06 C09 C11 C12 C17
 //@   flag nosafety
 //@   requires txn != nil
 //@   atcall Iterator.All@1 requires @bump-before-the-consumer-runs txn.txnID == old(txn.txnID) + 1
 //@   atcall Iterator.All@1 requires @over-the-transactions-root $0.start == txn.root
 //@ func (*Txn).Iterator
-//@   property C01 C02 C06 C11 C12 C17
+//@   property C01 C02 C06 C09 C11 C12 C17
 //@   requires txn != nil
 //@   atcall newIterator@1 requires @bump-before-escape txn.txnID == old(txn.txnID) + 1
 //@   atcall newIterator@1 requires @over-the-transactions-root $0 == txn.root
 //@   ensures txn.txnID == old(txn.txnID) + 1
 //@ func (*Txn).Prefix
-//@   property C01 C02 C06 C11 C12 C17
+//@   property C01 C02 C06 C09 C11 C12 C17
 //@   requires txn != nil
 //@   atcall prefixSearch@1 requires @bump-before-escape txn.txnID == old(txn.txnID) + 1
 //@   atcall prefixSearch@1 requires @over-the-transactions-root-callers-key $0 == txn.root && $1 == txn.rootWatch && $2 == key
 //@   ensures txn.txnID == old(txn.txnID) + 1
 //@ func (*Txn).LowerBound
-//@   property C01 C02 C06 C11 C12 C17
+//@   property C01 C02 C06 C09 C11 C12 C17
 //@   requires txn != nil
 //@   atcall lowerbound@1 requires @bump-before-escape txn.txnID == old(txn.txnID) + 1
 //@   atcall lowerbound@1 requires @over-the-transactions-root-callers-key $0 == txn.root && $1 == key
@@ -285,7 +285,7 @@ package part
 // cloneNode: the result is owned by the transaction; if a copy had to be made, the original's
 // watch channel is recorded for closing and the copy gets a fresh channel (or none).
 //@ func (*Txn).cloneNode
-//@   property C01 C02 C06 C11 C12 C17
+//@   property C01 C02 C06 C09 C11 C12 C17
 //@   maypanic
 //@   requires txn != nil && n != nil && 1 <= kindOf(n.flags) && kindOf(n.flags) <= 5 && txn.watches != nil
 //@   atcall (*header).setTxnID@* requires @stamp-only-with-safe-watch $0.watch == nil || fresh($0.watch) || has(txn.watches, $0.watch)
@@ -299,12 +299,12 @@ package part
 // delete / removeChild / modify: wherever a node is stamped with the transaction's id, its
 // watch channel is nil, fresh, or recorded for closing (see above).
 //@ func (*header).prefix
-//@   property C01 C02 C06 C11 C12 C17
+//@   property C01 C02 C06 C09 C11 C12 C17
 //@   pure
 //@   requires n != nil && (n.prefixP == nil ==> n.prefixLen == 0)
 //@   ensures len(result) == n.prefixLen
 //@ func (*header).children
-//@   property C01 C02 C06 C11 C12 C17
+//@   property C01 C02 C06 C09 C11 C12 C17
 //@   maypanic
 //@   pure
 //@   requires n != nil && (kindOf(n.flags) == 2 ==> sizeOf(n.flags) <= 4) && (kindOf(n.flags) == 3 ==> sizeOf(n.flags) <= 16) && (kindOf(n.flags) == 4 ==> sizeOf(n.flags) <= 48)
@@ -316,7 +316,7 @@ package part
 //@   ensures @len (kindOf(n.flags) >= 2 && kindOf(n.flags) <= 4 ==> len(result) == sizeOf(n.flags)) && (kindOf(n.flags) == 5 ==> len(result) == 256)
 //@   ensures kindOf(n.flags) < 1 || kindOf(n.flags) > 5 ==> result == nil
 //@ func (*header).cap
-//@   property C01 C02 C06 C11 C12 C17
+//@   property C01 C02 C06 C09 C11 C12 C17
 //@   maypanic
 //@   pure
 //@   requires n != nil
@@ -326,7 +326,7 @@ package part
 //@   ensures kindOf(n.flags) == 4 ==> result == 48
 //@   ensures kindOf(n.flags) == 5 ==> result == 256
 //@ func (*header).setPrefix
-//@   property C01 C02 C06 C11 C12 C17
+//@   property C01 C02 C06 C09 C11 C12 C17
 //@   flag nosafety
 //@   requires n != nil
 //@   modifies H_part_header_prefixP H_part_header_prefixLen
@@ -334,7 +334,7 @@ package part
 //@   ensures len(p) > 0 ==> n.prefixP == addr(p[0])
 //@   ensures n.prefixLen == len(p) % 65536
 //@ func (*header).promote
-//@   property C01 C02 C06 C11 C12 C17
+//@   property C01 C02 C06 C09 C11 C12 C17
 //@   maypanic
 //@   flag nosafety
 //@   requires n != nil && 1 <= kindOf(n.flags) && kindOf(n.flags) <= 4
@@ -347,7 +347,7 @@ package part
 //@   ensures @prefix result.prefixP == old(n.prefixP) && result.prefixLen == old(n.prefixLen)
 //@   ensures @frame onlyFresh()
 //@ func newLeaf
-//@   property C01 C02 C06 C11 C12 C17
+//@   property C01 C02 C06 C09 C11 C12 C17
 //@   flag nosafety
 //@   ensures @fresh result != nil && fresh(result) && (result.watch == nil || fresh(result.watch))
 //@   ensures @kind kindOf(result.flags) == 1 && sizeOf(result.flags) == 0
@@ -355,7 +355,7 @@ package part
 //@   ensures @content result.value == value && result.keyLen == len(key) % 65536 && result.prefixLen == len(prefix) % 65536 && (len(prefix) > 0 ==> result.prefixP == addr(prefix[0])) && (len(key) > 0 ==> result.keyP == addr(key[0]))
 //@   ensures @frame onlyFresh()
 //@ func (*Txn).removeChild
-//@   property C01 C02 C06 C11 C12 C17
+//@   property C01 C02 C06 C09 C11 C12 C17
 //@   flag nosafety
 //@   flag assumepre=tree-representation-invariant
 //@   atstore node4 requires @store-owned $p.txnID == txn.txnID || fresh($p)
@@ -376,7 +376,7 @@ package part
 //@   atcall (*header).setSize@* requires @mutate-owned fresh($0) || (kindOf($0.flags) != 1 && txnIDOf($0) == txn.txnID)
 //@   atcall (*header).setKind@* requires @mutate-owned fresh($0) || (kindOf($0.flags) != 1 && txnIDOf($0) == txn.txnID)
 //@ func (*Txn).delete
-//@   property C01 C02 C06 C11 C12 C17
+//@   property C01 C02 C06 C09 C11 C12 C17
 //@   flag nosafety
 //@   flag assumepre=tree-representation-invariant
 //@   atstore node4 requires @store-owned $p.txnID == txn.txnID || fresh($p)
@@ -398,7 +398,7 @@ package part
 //@   ensureslocal @deleted-leaf-watch-recorded hadOld ==> leaf != nil && (leaf.watch == nil || has(txn.watches, leaf.watch))
 //@   loop 2 invariant @leaf-watch-stays-recorded leaf != nil && (leaf.watch == nil || has(txn.watches, leaf.watch))
 //@ func (*Txn).modify
-//@   property C01 C02 C06 C11 C12 C17
+//@   property C01 C02 C06 C09 C11 C12 C17
 //@   flag nosafety
 //@   flag dyncall.mod=pure
 //@   flag assumepre=tree-representation-invariant
@@ -439,7 +439,7 @@ package part
 // when the transaction changed something (dirty) - not when some pointer happens to differ -
 // a clean transaction closes nothing at all, and the set of recorded channels is emptied.
 //@ func (*Txn).Notify
-//@   property C01 C02 C06 C11 C12 C17
+//@   property C01 C02 C06 C09 C11 C12 C17
 //@   flag nosafety
 //@   maypanic
 //@   requires txn != nil && txn.watches != nil && len(txn.watches) >= 0
@@ -448,6 +448,8 @@ package part
 //@   ensures @watches-emptied forall c ptr :: !has(txn.watches, c)
 //@   loop 1 invariant @count 0 <= $n && $n <= len(txn.watches) && txn.watches == old(txn.watches) && txn.dirty == old(txn.dirty) && txn.rootWatch == old(txn.rootWatch)
 //@   loop 1 invariant @untouched-before-first $n == 0 ==> unchanged(CH_closed)
+//@   loop 1 invariant @visited-channels-are-closed forall c ptr :: $seen[c] ==> closed(c)
+//@   ensures @every-recorded-channel-is-closed forall c ptr :: old(has(txn.watches, c)) ==> closed(c)
 
 // ---------------------------------------------------------------------------
 // Decoding (C17): a decoded Set or Map is built from an EMPTY tree, whatever the receiver held
